@@ -365,6 +365,39 @@ def run(tier, seed):
                 run.fail({"schema": sch, "value": repr(datum), "parsed_schema": parsed_, "results": res, "tags": ["named-logical-by-name", pname]},
                          "a conforming datum at a position that refers by name to a named type with a logical type is not accepted "
                          "by validate and all writers alike", kind="oracle")
+    # strict modes: a record lacking a field that has no default is refused even when the field's type accepts null —
+    # by validate(strict=True) and by every writer alike (strict and strict_allow_default)
+    for nt in ("null", {"type": "null"}, ["null", "int"], ["int", "null"]):
+        for pos in ("last", "first", "nested"):
+            flds = [{"name": "a", "type": "int"}, {"name": "n", "type": nt}]
+            if pos == "first":
+                flds.reverse()
+            sch = {"type": "record", "name": "StrictR", "fields": flds}
+            datum = {"a": 1}
+            if pos == "nested":
+                sch = {"type": "record", "name": "StrictOuter", "fields": [{"name": "inner", "type": sch}, {"name": "z", "type": "string"}]}
+                datum = {"inner": {"a": 1}, "z": "s"}
+            res = {}
+            try:
+                res["validate(strict)"] = _validate(datum, copy.deepcopy(sch), raise_errors=False, strict=True)
+            except Exception as e:  # noqa
+                res["validate(strict)"] = "raises " + exc_class(e)
+            for mode in ("strict", "strict_allow_default"):
+                kw = {mode: True}
+                for wname, fn in (("schemaless_writer", lambda: fastavro.schemaless_writer(_io.BytesIO(), copy.deepcopy(sch), datum, **kw)),
+                                  ("writer", lambda: fastavro.writer(_io.BytesIO(), copy.deepcopy(sch), [datum], **kw)),
+                                  ("json_writer", lambda: fastavro.json_writer(_io.StringIO(), copy.deepcopy(sch), [datum], **kw))):
+                    try:
+                        fn()
+                        res["%s(%s)" % (wname, mode)] = "accepted"
+                    except Exception as e:  # noqa
+                        res["%s(%s)" % (wname, mode)] = "refused"
+            run.cov["evaluations"] += 1
+            run.tag("strict-missing-nullable")
+            if res["validate(strict)"] is not False or any(v != "refused" for k, v in res.items() if k != "validate(strict)"):
+                run.fail({"schema": sch, "value": datum, "results": res, "tags": ["strict-missing-nullable", pos]},
+                         "strict mode: a record lacking a field without a default (its type accepts null) is not refused by validate and "
+                         "every writer alike", kind="oracle")
     for ftype, dflt in (("bytes", "ab"), ({"type": "fixed", "name": "Fx", "size": 2}, "ab")):
         sch = {"type": "record", "name": "R", "fields": [{"name": "i", "type": "int"}, {"name": "b", "type": ftype, "default": dflt}]}
         run.cov["evaluations"] += 1
